@@ -710,11 +710,11 @@ func genC16(g *Gen, idx int) *Plan {
 func init() {
 	Register(&Check{ID: "C26", Level: "exploration",
 		Rule:   "1-2 real client libraries against the real gateway and the broker model over lossless links: random bounded API programs (connect, register, subscribe string/wildcard/short/predefined, publish QoS 0-3, unsubscribe, ping, sleep -> second sleep -> connect, disconnect; optional will; keep-alive on/off) with broker-side publishes routed by subscription incl. bursts on not-yet-registered topics; every eighth plan: wildcard subscription, sleeps of 3-7 s with publishes on new names during them and a gateway retry budget shorter than the sleep; every call must return nil within its bound, have its effect at the broker, and every broker message matching a live subscription must reach the handler; non-trivial = at least one API call",
-		Gen:    genC26, Oracle: oracleC26, Quick: 600, Thorough: 40000})
+		Gen:    genC26, Oracle: oracleC26, Quick: 1600, Thorough: 120000})
 	Register(&Check{ID: "C32", Level: "exploration",
 		Rule:   "real clients and the real gateway share a random predefined-topic configuration with client-specific/'*' overlaps in ids (names unique per map, see N7); PublishPredefined/SubscribePredefined/short-topic Publish/Subscribe plus broker publishes on every predefined and short name; the broker must see the name the client's configuration gives to the id, handlers must get the broker's name; non-trivial = at least one predefined/short publish, subscribe or delivery judged",
-		Gen:    genC32, Oracle: oracleC32, Quick: 600, Thorough: 40000})
+		Gen:    genC32, Oracle: oracleC32, Quick: 1200, Thorough: 120000})
 	Register(&Check{ID: "C16", Level: "fault_enumeration",
 		Rule:   "real client subscribed to t/#, broker publishes QoS 1/2 on a registered and on a new topic (REGISTER step); 1-2 planned rules drop the first j <= RetryCount occurrences (or duplicate) of one class among REGISTER, PUBLISH, PUBREL (to the client) and REGACK, PUBACK, PUBREC, PUBCOMP (from it); one fifth of the runs exceed the budget (j = RetryCount+1); non-trivial = a broker QoS 1/2 PUBLISH was sent",
-		Gen:    genC16, Oracle: oracleC16, Quick: 600, Thorough: 40000})
+		Gen:    genC16, Oracle: oracleC16, Quick: 1200, Thorough: 100000})
 }
